@@ -343,7 +343,7 @@ func (r *rec) epochMode(tier string) {
 func (r *rec) permMode(tier string, shard, nshards int) {
 	maxN := 3000
 	if tier == "thorough" {
-		maxN = 20000
+		maxN = 8000
 	}
 	k := 0
 	for n := 1; n <= maxN; n++ {
